@@ -33,10 +33,13 @@ where
         let mut purified_cstore = ConstraintStore::new();
         for constraint in self.0.into_iter() {
             if let Some(tree_constraint) = constraint.downcast_ref::<DisequalityConstraint<U, E>>() {
+                // A disequality that mentions a variable which is not reified in `r` puts no
+                // restriction on the answer: the unreified variable can always be chosen so
+                // that the disequality holds.
                 if tree_constraint
                     .smap_ref()
                     .iter()
-                    .any(|(u, _)| r.is_anyvar(u))
+                    .all(|(u, v)| r.is_reified(u) && r.is_reified(v))
                 {
                     purified_cstore.insert(constraint);
                 }
